@@ -605,6 +605,35 @@ Proof.
   destruct (gate_step_spec _ _ _ _ _ E) as [(H0 & H1 & H2 & _)|(H0 & _ & H2)]; [left|right]; repeat split; assumption.
 Qed.
 
+(* a lasting lead: n calls at the consecutive frames c, c+1, ... with the same frames_ahead *)
+Fixpoint gate_steady (c : Z) (n : nat) (fa : Z) : list (Z * Z) :=
+  match n with O => [] | S k => (c, fa) :: gate_steady (c + 1) k fa end.
+
+(* cadence: recommendations come exactly every RECOMMENDATION_INTERVAL + 1 frames, starting at the first frame
+   above the gate state *)
+Lemma gate_steady_cadence : forall n next c fa cf o,
+  MIN_RECOMMENDATION <= fa -> next < c + RECOMMENDATION_INTERVAL ->
+  In (cf, fa, o) (gate_run next (gate_steady c n fa)) ->
+  (o = Some fa /\ (cf - Z.max (next + 1) c) mod (RECOMMENDATION_INTERVAL + 1) = 0) \/
+  (o = None /\ (cf - Z.max (next + 1) c) mod (RECOMMENDATION_INTERVAL + 1) <> 0).
+Proof.
+  induction n as [|k IH]; intros next c fa cf o Hfa Hn HIn; cbn [gate_steady gate_run] in HIn; [contradiction|].
+  destruct gate_consts as [Hm Hr].
+  destruct (gate_step next c fa) as [[n' o']| |] eqn:E; [|contradiction|contradiction].
+  destruct (gate_step_spec _ _ _ _ _ E) as [(H0 & H1 & H2 & H3)|(H0 & H3 & H4)].
+  - destruct HIn as [HIn|HIn].
+    + inversion HIn; subst. left. split; [reflexivity|].
+      replace (Z.max (next + 1) cf) with cf by lia. replace (cf - cf) with 0 by lia. rewrite Hr. reflexivity.
+    + subst n'. assert (Hn' : c + RECOMMENDATION_INTERVAL < c + 1 + RECOMMENDATION_INTERVAL) by lia.
+      destruct (IH _ _ _ _ _ Hfa Hn' HIn) as [(A & B)|(A & B)]; [left|right]; (split; [exact A|]);
+        rewrite Hr in *; lia.
+  - destruct HIn as [HIn|HIn].
+    + inversion HIn; subst. right. split; [reflexivity|]. rewrite Hr in *. lia.
+    + subst n'. assert (Hn' : next < c + 1 + RECOMMENDATION_INTERVAL) by lia.
+      destruct (IH _ _ _ _ _ Hfa Hn' HIn) as [(A & B)|(A & B)]; [left|right]; (split; [exact A|]);
+        rewrite Hr in *; lia.
+Qed.
+
 Definition gate_ex_calls : list (Z * Z) :=
   [(1, 0); (2, 3); (3, 5); (40, 7); (62, 2); (63, 4); (64, 4); (123, 2); (124, 9)].
 Lemma gate_ex_ok : gate_run gate_init gate_ex_calls =
